@@ -15,7 +15,7 @@ SESS_MOVES = ['seg_nostart_unknown', 'seg_end_unknown', 'ack_unknown', 'ack_fini
               'refuse_unknown', 'refuse_sent_unacked',
               'refuse_own', 'unknown_type', 'xfer_ok', 'xfer_start', 'xfer_mismatch', 'xfer_cont_end', 'ka',
               'reject_msg', 'term', 'term_twice', 'term_reply', 'ch_again',
-              'ack_other_conn', 'ack_other_conn_end', 'refuse_other_conn']
+              'ack_other_conn', 'ack_other_conn_end', 'refuse_other_conn', 'xfer_start_2g', 'xfer_start_max']
 PRE_INIT_MOVES = ['seg', 'ack', 'refuse', 'term', 'ka', 'unknown_type', 'ack_early_own', 'refuse_early_own']
 PRE_CH_MOVES = ['bad_magic', 'bad_version', 'seg_first']
 
@@ -223,6 +223,14 @@ class Adversary(object):
             self.next_id += 1
             self.open_id = tid
             self.send(codec.enc_segment(tid, self.data(2), codec.SEG_START, [codec.ext_total_length(4)]))
+        elif name in ('xfer_start_2g', 'xfer_start_max'):
+            # a legal START whose Transfer Length extension announces a very large bundle (2 GiB / the largest
+            # value of the field): whatever the endpoint tells its application about it must fit the signal
+            tid = self.next_id
+            self.next_id += 1
+            self.open_id = tid
+            total = 2 ** 31 if name == 'xfer_start_2g' else 2 ** 64 - 1
+            self.send(codec.enc_segment(tid, self.data(2), codec.SEG_START, [codec.ext_total_length(total)]))
         elif name == 'xfer_mismatch':
             self.send(codec.enc_segment(self.next_id + 50, self.data(2), 0))
         elif name == 'xfer_cont_end':
